@@ -403,7 +403,7 @@ def carry_over(code: int, flags: int, bv: bytes) -> bool:
     code = P["code"]            # concrete: the attribute lookup formats "<code>-<vendor>" keys
     try:
         # an AVP the class cannot declare (vendor 99999 appears in no table), M/P bits symbolic
-        extra = ref_avp(code, 99999, flags * 0x20, bv)
+        extra = ref_avp(code, P.get("vendor", 99999), flags * 0x20, bv)
         obj = cls()
         md, me = _first_scalar(cls)
         if md is not None:
@@ -551,5 +551,16 @@ def specs(tier, seed, carve):
     for n_ in cn:
         out.append(dict(id="carry_over/" + n_, fn="carry_over", params={"cls": n_, "code": rnd.randrange(1, 1 << 32)}, timeout=60,
                         bound="%s: one undeclared AVP (a seeded 32-bit code, vendor 99999, M/P bits symbolic, 4 symbolic payload bytes) after the class's own AVPs" % n_))
+    # the same with an undeclared AVP whose *code* equals that of a declared attribute under another vendor (another AVP altogether)
+    for n_ in cn:
+        rws = rows_of(CLASSES[n_])
+        declared = {(d.avp_code, d.vendor_id) for d in rws}
+        cand = [(d.avp_code, 99999 if not d.vendor_id else 0) for d in rws]
+        cand = [c for c in cand if c not in declared]
+        if not cand:
+            continue
+        for (code_, vend_) in (rnd.sample(cand, min(2, len(cand))) if q else cand[:6]):
+            out.append(dict(id="carry_over_collide/%s/%d-%d" % (n_, code_, vend_), fn="carry_over", params={"cls": n_, "code": code_, "vendor": vend_}, timeout=60,
+                            bound="%s: one undeclared AVP with the code %d of a declared attribute but vendor %d (M/P bits symbolic, 4 symbolic payload bytes) after the class's own AVPs" % (n_, code_, vend_)))
     out.append(dict(id="undefined_naming", fn="undefined_naming", params={}, timeout=120, bound="undefined command with a repeated AVP (two symbolic Unsigned32), a grouped AVP and a symbolic OctetString"))
     return out
